@@ -136,6 +136,9 @@ impl<L: Localize> OpeningHours<L> {
         #[cfg(test)]
         crate::tests::stats::notify::generated_schedule();
 
+        #[cfg(ohrs_verif)]
+        crate::verif::notify_schedule_at();
+
         if !(DATE_START.date()..DATE_END.date()).contains(&date) {
             return Schedule::default();
         }
@@ -419,6 +422,10 @@ impl<L: Localize> TimeDomainIterator<L> {
                     .unwrap_or_else(|| self.curr_date.succ_opt().expect("reached invalid date"));
 
                 assert!(next_change_hint > self.curr_date, "infinite loop detected");
+
+                #[cfg(ohrs_verif)]
+                crate::verif::notify_jump(self.curr_date, next_change_hint);
+
                 self.curr_date = next_change_hint;
 
                 if self.curr_date <= self.end_datetime.date() && self.curr_date < DATE_END.date() {
